@@ -152,6 +152,13 @@ def rule_scope_order(prog):
                         for q in b["params"] for pp in hir.pat_bindings(q))
                     ok = not has_proc
                     src = "None"
+                    if has_proc:
+                        # a global-only table next to the scoped one that is consulted only where the position admits nothing but a
+                        # global entity (decided like the literal clause below)
+                        for y_, yps_ in hir.walk(b["body"]):
+                            if y_ is lit:
+                                og_ = _only_used_in_global_position(prog, b, lit, yps_)
+                                ok = True if og_ else (None if og_ is None else False)
                 out.add(b["d"], "LookupTable for `%s` is built from the enclosing procedure's local table" % kp.split("#")[0],
                         ok, bc.loc(n["sp"]), "local_table = %s, procedure context = %s" % (src, proc_bind), ("site",))
             elif recv_t == GT and (proc_bind is not None or _in_ctx(parents, GENTRY + "::Procedure")) and _is_cursor_ident(bc, n["args"][0]):
@@ -846,11 +853,23 @@ def _only_used_in_global_position(prog, b, lit, parents):
                 # `match name_scope(tokens, index) { Global => &global_table, Enclosing => &scoped }`: the classification is an enum
                 # computed by a local function; the arm is the type-position one if its variant is what that function answers
                 # under its `:`/`of` test
-                ms = _markers_in(prog, p["scrut"], bc)
+                scrut_ = hir.strip(p["scrut"])
+                # (the classification may be computed one statement earlier: `let scope = if names_global_entity(..) { Global } else { Local };`)
+                spl_ = hir.path_local(scrut_)
+                if spl_:
+                    for l_ in hir.nodes(b["body"], "Let"):
+                        if l_["pat"].get("k") == "Binding" and l_["pat"]["id"] == spl_["id"] and l_.get("init") is not None:
+                            scrut_ = hir.strip(l_["init"])
+                ms = _markers_in(prog, scrut_, bc)
                 if not ({"Colon", "Of"} <= ms or "NamedType" in ms):
                     continue
                 arm = chain[i + 1] if chain[i + 1].get("k") == "Arm" else None
-                gv = _position_variant(prog, hir.strip(p["scrut"]), bc)
+                gv = _position_variant(prog, scrut_, bc)
+                if gv is None and scrut_.get("k") == "If" and hir.strip(scrut_["cond"]).get("k") != "Unary":
+                    t_ = hir.strip(scrut_["then"])
+                    r_ = (t_.get("res") or {}) if t_.get("k") == "Path" else {}
+                    if r_.get("k") == "Def" and str(r_.get("dk", "")).startswith("Ctor(Variant, Const)"):
+                        gv = r_.get("ctor_of")
                 if arm is None or gv is None:
                     unsure = True
                     ok = True
@@ -1272,8 +1291,10 @@ def rule_len_units(prog):
 def rule_semtok_pairing(prog):
     out = Out("SEMTOK-PAIRING")
     c = prog.lsp
-    fns = [b for b in c.bodies if b["p"].startswith("lsp4spl::features::semantic_tokens::collect_")]
-    if len(fns) < 3:
+    # by role: the functions of the module that yield the semantic tokens of a part of the document
+    fns = [b for b in c.bodies if b["p"].startswith("lsp4spl::features::semantic_tokens::") and b["k"] == "fn" and "/tests" not in c.file_of(b["sp"]) and
+           (b["name"].startswith("collect_") or ("sig_out" in b and "Vec<lsp_types::SemanticToken>" in c.tstr(b["sig_out"]).replace(" ", "")))]
+    if len(fns) < 2:
         out.missing("semantic_tokens::collect_* (found %d)" % len(fns))
         return out
     # the handler itself: everything behind the last declaration (comments in front of end-of-file belong to no declaration) is
@@ -1391,6 +1412,31 @@ def rule_semtok_pairing(prog):
                         produces = "SemanticToken" in c.tstr(hir.strip(cond["init"])["t"])
                         if emitted and produces:
                             g_ok = True
+                # `let Some(token) = classified else { continue };  *base = as_position(..);  out.push(token);`
+                for blk_ in [p_ for p_ in inner if p_.get("k") == "Block"] + ([blk] if blk else []):
+                    stmts_ = list(blk_.get("stmts") or [])
+                    pos_i = next((i_ for i_, st_ in enumerate(stmts_) if any(x is n for x in hir.nodes(st_))), None)
+                    if pos_i is None:
+                        continue
+                    for st_ in stmts_[:pos_i]:
+                        # `let token = if .. { create(..) } else { match classify(..) { Some(t) => t, None => continue } };`: whoever gets
+                        # past this statement holds a token (the binding is a SemanticToken, not an Option of one)
+                        if st_.get("k") == "Let" and st_.get("els") is None and st_.get("init") is not None and st_["pat"].get("k") == "Binding" and \
+                                c.tstr(st_["pat"]["bt"]).replace(" ", "") in ("lsp_types::SemanticToken",):
+                            bds = ["%s#%s" % (st_["pat"]["name"], st_["pat"]["id"])]
+                            rest_ = stmts_[pos_i:] + ([blk_["expr"]] if blk_.get("expr") else [])
+                            if any(x.get("k") == "MethodCall" and x["m"] in ("push", "extend", "push_back", "insert") and
+                                   any(place(a_) in bds for a_ in x["args"]) for r_ in rest_ for x in hir.nodes(r_)):
+                                g_ok = True
+                        if st_.get("k") == "Let" and st_.get("els") is not None and st_.get("init") is not None and \
+                                any(v.endswith("Option::Some") for v in hir.pat_variants_all(st_["pat"])) and \
+                                any(x.get("k") in ("Continue", "Ret", "Break") for x in hir.nodes(st_["els"])) and \
+                                "SemanticToken" in c.tstr(hir.strip(st_["init"])["t"]):
+                            bds = ["%s#%s" % (bd["name"], bd["id"]) for bd in hir.pat_bindings(st_["pat"])]
+                            rest_ = stmts_[pos_i:] + ([blk_["expr"]] if blk_.get("expr") else [])
+                            if any(x.get("k") == "MethodCall" and x["m"] in ("push", "extend", "push_back", "insert") and
+                                   any(place(a_) in bds for a_ in x["args"]) for r_ in rest_ for x in hir.nodes(r_)):
+                                g_ok = True
                 ok = g_ok and pos_ok
             out.add(b["d"], "previous position advances exactly when a semantic token is emitted, to that token's start", ok, loc_,
                     "delta encoding is stateful: the base must be updated iff a token is emitted for this source token, with the start of that token")
